@@ -298,7 +298,7 @@ class C06(vlib.Spec):
         "Banyan.Tie.C06." + t for t in ["std_day_tie", "day_hours_tie", "anchor_tie", "format_tie", "nextTime_shape_tie"]]
     go_driver = "seg"
     lean_driver = "C06"
-    counts = {"quick": 16000, "thorough": 240000}
+    counts = {"quick": 16000, "thorough": 192000}
     trusted_base = [
         "Lean 4.33.0 kernel",
         "correspondence check: Go driver hooks/banyand/internal/verifdrv/seg (real OpenTSDB on a scratch dir, mock clock, "
